@@ -5,7 +5,9 @@
 
 use h_common::{tool_error, Args};
 
+mod daser;
 mod ranges;
+mod recstore;
 mod session;
 mod store;
 mod subs;
@@ -27,6 +29,7 @@ fn main() {
         ("replay", "vrange") => session::replay_vrange(&args),
         ("record", "subs") => subs::record(&args),
         ("record", "syncer") => syncer::record(&args),
+        ("record", "daser") => daser::record(&args),
         ("record", "store") => store::record(&args),
         _ => tool_error(&format!("unknown mode/model {mode}/{model}")),
     }
